@@ -336,7 +336,7 @@ def batch(ctx, n_cases, with_model=True):
         run_case_chunks(ctx, 'ticker', HEADER, texts, cases, lambda j: obss[j], chunk=400)
 
 
-def run(ctx):
+def _run_vertical(ctx):
     batch(ctx, ctx.n(300, 5000))
 
 
@@ -379,3 +379,11 @@ def shrink(ctx, failure):
         start = 0
     why = [m for sp, l in zip(tickers, run_tickers(start, tickers)) for m in monitor(sp, start, l)]
     return dict(start=start, tickers=tickers, failing=0, why_after_shrinking=why[:3])
+
+
+
+def run(ctx):
+    _run_vertical(ctx)
+    # second, independent tie: ticker programs (interval/delay nested in scopes/untils next to other activities) on the whole-program machine
+    from harness import machine_prop
+    machine_prop.run(ctx, [('tickers', 120, 3000, {})], [])
